@@ -81,7 +81,10 @@ func fuzzSeeds(e *envT, cmd string) [][]byte {
 		var p built
 		p.cs(1)
 		p.w(le32(genesisTime), netAddr(9, [4]byte{8, 8, 8, 8}, 8333))
-		return [][]byte{p.b.Bytes()}
+		var q built
+		q.cs(2)
+		q.w(le32(0xffffffff), netAddr(goodServices, [4]byte{12, 1, 2, 3}, 8333), le32(0x7fffffff), netAddr(goodServices, [4]byte{12, 1, 2, 4}, 8333))
+		return [][]byte{p.b.Bytes(), q.b.Bytes()}
 	case "inv", "getdata", "notfound":
 		return [][]byte{inv(2, tip), inv(0x40000002, e.hashes[5]), inv(0x40000001, e.spend[0].TxID), inv(4, tip)}
 	case "getblocks", "getheaders":
@@ -128,12 +131,17 @@ func fuzzSeeds(e *envT, cmd string) [][]byte {
 }
 
 // fuzzHandler fuzzes the payload of one command.  flags: bit0 authorised peer, bit1 node still syncing,
-// bit2 no handshake first, bit3 message arrives marked trusted (only honoured for an authorised peer).
+// bit2 no handshake first, bit3 message arrives marked trusted (only honoured for an authorised peer),
+// bit4/5 (addr only) peers database at / just below its hard limit.
 func fuzzHandler(f *testing.F, cmd string) {
 	e := getEnv()
 	for _, s := range fuzzSeeds(e, cmd) {
 		f.Add(byte(0), s)
 		f.Add(byte(1), s)
+		if cmd == "addr" {
+			f.Add(byte(16), s)
+			f.Add(byte(48), s)
+		}
 	}
 	f.Fuzz(func(t *testing.T, flags byte, pl []byte) {
 		if wedged.Load() {
@@ -144,6 +152,12 @@ func fuzzHandler(f *testing.F, cmd string) {
 			return
 		}
 		cs := seqCase{Incoming: true, Handshake: flags&4 == 0, Authorized: flags&1 != 0 && flags&4 == 0, Syncing: flags&2 != 0}
+		if cmd == "addr" && flags&16 != 0 {
+			cs.Peers = "full" // bit4: the peers database is at its limit
+			if flags&32 != 0 {
+				cs.Peers = "below"
+			}
+		}
 		switch cmd {
 		case "cmpctblock":
 			cs.Msgs = []msg{{Cmd: "sendcmpct", Pl: "010200000000000000"}}
